@@ -167,7 +167,8 @@ func SameStrings(a, b []string) bool {
 // FreshFrom builds a fresh replica that receives everything `from` holds by one
 // of the delivery routes of the property: 0 = manual sync / announced heads,
 // 1 = load from disk (a new store over from's cache and blocks, real Load),
-// 2 = snapshot (from saves a snapshot, the new store loads it).
+// 2 = snapshot (from saves a snapshot, the new store loads it),
+// 4 = partial load from disk (limit) completed by a lagging peer's heads.
 func FreshFrom(ctor Ctor, from *Replica, route int, save func(context.Context, iface.Store) error) *Replica {
 	switch route {
 	case 0:
@@ -186,6 +187,38 @@ func FreshFrom(ctor Ctor, from *Replica, route int, save func(context.Context, i
 			return nil
 		}
 		vstub.WaitIdle()
+		return r
+	case 4:
+		// partial load, then the rest arrives as the head of a lagging peer: a new
+		// store over from's disk loads only the k most recent entries (k symbolic
+		// choice), then is handed the newest entry it does NOT hold as an announced
+		// head (what a peer that lags behind would announce); the replicator
+		// fetches that entry's ancestry; the log's heads do not move
+		all := from.Store.OpLog().Values().Slice()
+		if len(all) < 2 {
+			return FreshFrom(ctor, from, 1, save)
+		}
+		k := 1 + vstub.NdChoice("partial", len(all)-1)
+		r := Open(ctor, from.Name, from.Env.Blocks, from.Store.AccessController(), false, from.Env.Cache)
+		if r == nil {
+			return nil
+		}
+		if err := r.Store.Load(context.Background(), k); err != nil {
+			vstub.Fail("partial Load failed")
+			return nil
+		}
+		vstub.WaitIdle()
+		vstub.Cover("partial-load")
+		// newest-first: hand over every entry the replica does not hold yet
+		for j := len(all) - 1; j >= 0; j-- {
+			if _, ok := r.Store.OpLog().Get(all[j].GetHash()); ok {
+				continue
+			}
+			if err := r.Store.Sync(context.Background(), []ipfslog.Entry{all[j].Copy()}); err != nil {
+				vstub.Fail("Sync returned an error for an honest lagging head")
+			}
+			vstub.WaitIdle()
+		}
 		return r
 	default:
 		if err := save(context.Background(), from.Store); err != nil {
@@ -247,7 +280,7 @@ func BatchedRestart(ctor Ctor, x, y *Replica) ([]string, *Replica) {
 // before they merge, then a restart from its own disk followed by the merged
 // heads).  restartBefore is the route-3 reader's log before its restart.
 func Converge(ctor Ctor, a, b *Replica, save func(context.Context, iface.Store) error) (r *Replica, restartBefore, restartAfter []string) {
-	route := vstub.NdChoice("route", 4)
+	route := vstub.NdChoice("route", 5)
 	if route == 3 {
 		x, y := a, b
 		if vstub.NdChoice("batch-order", 2) == 1 {
